@@ -777,7 +777,7 @@ def plan_c19(run, prop, tier):
     observation logs must be identical (enumeration order of kids(), ids from next_id/merge/scripts, error texts included)."""
     acc = Acc()
     s = vlib.seed()
-    for (ca, cb, na, nb) in ([(3, 5, 1, 2)] if tier == "quick" else [(3, 5, 1, 2), (3, 4, 2, 1), (4, 4, 1, 2)]):
+    for (ca, cb, na, nb) in ([(3, 5, 1, 2)] if tier == "quick" else [(3, 5, 1, 2), (3, 4, 2, 1), (2, 4, 2, 2)]):
         r = vlib.model_check(run, "MC_Indep", f"SPECIFICATION Spec\nCONSTANTS CapA = {ca} CapB = {cb} NA = {na} NB = {nb} Labels = {{\"a\", \"b\"}} "
                              "Vals = {\"x\"}\nINVARIANT SameAnswers\nCHECK_DEADLOCK FALSE\n", timeout=3000)
         acc.add_e1(f"MC_Indep[cap {ca} vs {cb}, N {na} vs {nb}]: SameAnswers", r)
